@@ -468,8 +468,13 @@ def inject(root):
                 break
     if target is None:
         return None
-    first = target.body[0]
     lines = src.split("\n")
+    # a custom pickle hook on the same class (C16 pickle half): appended after the class body
+    for n in ast.walk(tree):
+        if isinstance(n, ast.ClassDef) and n.name == "RandomSeedGenerator":
+            ind = " " * n.body[0].col_offset
+            lines.insert(n.end_lineno, ind + "def __getstate__(self):\n" + ind + "    return dict(self.__dict__)")
+    first = target.body[0]
     indent = " " * first.col_offset
     lines.insert(first.lineno - 1, indent + "from syne_tune.optimizer.schedulers.c11_probe_mod import c11_probe; c11_probe()")
     open(path, "w").write("\n".join(lines))
@@ -499,7 +504,8 @@ def self_test(ctx):
         test = ("From Coq Require Import List PArith String.\nFrom Verif Require Import model.EffGraph.\n"
                 "From SelfT Require Import EffFacts.\nImport ListNotations.\n"
                 "Eval vm_compute in (check_b edges effs off_fifo_random roots_fifo_random ambient [],"
-                " check_b edges effs off_pbt roots_pbt ambient [], check_b edges effs off_hyperband_bayesopt roots_hyperband_bayesopt ambient []).\n")
+                " check_b edges effs off_pbt roots_pbt ambient [], check_b edges effs off_hyperband_bayesopt roots_hyperband_bayesopt ambient []).\n"
+                "Eval vm_compute in (check_b edges effs off_fifo_random roots_fifo_random pickle_hook []).\n")
         open(os.path.join(cq, "SelfTest.v"), "w").write(test)
         flags = ["-R", common.COQ, "Verif", "-R", cq, "SelfT"]
         p1 = subprocess.run(["timeout", "300", "coqc"] + flags + [os.path.join(cq, "EffFacts.v")], cwd=cq,
@@ -507,7 +513,9 @@ def self_test(ctx):
         p2 = subprocess.run(["timeout", "300", "coqc"] + flags + [os.path.join(cq, "SelfTest.v")], cwd=cq,
                             stdout=subprocess.PIPE, stderr=subprocess.STDOUT, text=True)
         out = " ".join(p2.stdout.split())
-        if p1.returncode != 0 or p2.returncode != 0 or "(false, false, false)" not in out:
+        has_hook = any(e[1] == "CustomPickle" and "RandomSeedGenerator" in e[3] for e in facts["effs"])
+        if p1.returncode != 0 or p2.returncode != 0 or "(false, false, false)" not in out or (
+                has_hook and not re.search(r"= false : bool\s*$", out)):
             ctx.violation("correspondence", "translator self-test: the Coq check over facts generated from a source "
                           "with an injected reachable np.random call does not fail: %s %s" % (p1.stdout[-300:], out[-300:]),
                           case={}, failing_input=False, broken="translator self-test (Coq check_b on mutated facts)")
@@ -522,6 +530,8 @@ def self_test(ctx):
                           "np.random.rand() call inside RandomSeedGenerator", case={}, failing_input=False,
                           broken="driver self-test (global-generator recorder)")
             return
+        ctx.notes.append("self-test (pickle half): injected __getstate__ on RandomSeedGenerator %s" % (
+            "-> check_b ... pickle_hook [] = false" if has_hook else "NOT seen by the translator (class gone?)"))
         ctx.notes.append("self-test ok: injected np.random call in RandomSeedGenerator.%s -> facts report %d reachable "
                          "GlobalNumpyRNG site(s), Coq check_b = false for fifo_random/pbt/hyperband_bayesopt, twin-run "
                          "recorder flags the consumption" % (where, len(hit)))
